@@ -1,7 +1,8 @@
 #!/bin/sh
 # usage: run_trace.sh <seed> <n> <dir> [classes]
 set -e
+ROOT=$(cd "$(dirname "$0")/.." && pwd)
 mkdir -p "$3"
-/verif/harness/target/debug/corr_trace "$1" "$2" "$3" $4
-/verif/lean/.lake/build/bin/ezpz-driver < "$3/trace.cases" > "$3/trace.model"
-python3-vt /verif/tools/compare_trace.py "$3"
+"$ROOT/harness/target/debug/corr_trace" "$1" "$2" "$3" $4
+"$ROOT/lean/.lake/build/bin/ezpz-driver" < "$3/trace.cases" > "$3/trace.model"
+python3-vt "$ROOT/tools/compare_trace.py" "$3"
